@@ -112,9 +112,15 @@ fn evaluate(rep: &mut Report, job: &Job, obs: &Obs, samples: bool) {
 pub fn run(rep: &mut Report, lines: &[Value], arch_lines: &[Value], args: &Args) {
     let nworkers = args.opt_usize("jobs", 6);
     let only = args.opt("only").unwrap_or("");
+    let t = std::time::Instant::now();
     if only.is_empty() || only == "records" { records(rep, lines, args, nworkers); }
+    rep.note(PID, "seconds_records", json!(t.elapsed().as_secs()));
+    let t = std::time::Instant::now();
     if only.is_empty() || only == "archive" { archives(rep, arch_lines, args, nworkers); }
+    rep.note(PID, "seconds_archive", json!(t.elapsed().as_secs()));
+    let t = std::time::Instant::now();
     if only.is_empty() || only == "runs" { runs(rep, args); }
+    rep.note(PID, "seconds_runs", json!(t.elapsed().as_secs()));
 }
 
 // ---------------------------------------------------------------------------
